@@ -236,9 +236,101 @@ def rand_state(M, m, rng, contact):
     return d
 
 
+RT_XML = """<mujoco><option cone="{cone}" jacobian="{jac}"/>
+  <worldbody>
+    <geom name="floor" type="plane" size="5 5 .1" condim="{condim}"/>
+    <body pos="0 0 0.08"><freejoint/><geom name="ball" type="sphere" size=".1" condim="{condim}"/></body>
+    <body pos="0.6 0 0.04"><freejoint/><geom name="cap" type="capsule" size=".05 .1" condim="{condim}" euler="0 90 0"/></body>
+    <body pos="1 0 0.5"><joint name="hinge" type="hinge" axis="0 1 0" limited="true" range="-10 10" frictionloss="0.05"/>
+      <geom type="capsule" size=".02" fromto="0 0 0 .2 0 0" contype="0" conaffinity="0"/>
+      <body pos="0.2 0 0"><joint name="h2" type="hinge" axis="0 1 0"/><geom size="0.03" contype="0" conaffinity="0"/></body></body>
+    <body name="anchor" pos="2 0 0.5"><joint name="s" type="slide" axis="0 0 1"/><geom size="0.05" contype="0" conaffinity="0"/></body>
+  </worldbody>
+  <equality>{eq}</equality>
+</mujoco>"""
+RT_EFC = ("efc_pos", "efc_margin", "efc_D", "efc_aref", "efc_force", "efc_frictionloss")
+RT_CON = ("dist", "pos", "frame", "includemargin", "friction", "solref", "solimp", "dim", "geom", "efc_address")
+
+
+def dense_J(m, d):
+    J = np.zeros((d.nefc, m.nv))
+    if d.nefc == 0:
+        return J
+    if mujoco.mj_isSparse(m):
+        mujoco.mju_sparse2dense(J, d.efc_J, d.efc_J_rownnz, d.efc_J_rowadr, d.efc_J_colind)
+    else:
+        J[:] = np.array(d.efc_J).reshape(d.nefc, m.nv)
+    return J
+
+
+def roundtrip_corpus(out, quick):
+    """put_data -> get_data on MjData holding ACTIVE constraints of every kind: contacts of condim 1/3/4/6 under both cones (sphere and
+    two-contact capsule on a plane), a joint limit, a friction-loss dof, equality constraints; counts, every efc_* field and the contact
+    fields must come back unchanged"""
+    combos = [(cone, cd, jac, eq) for cone in ("pyramidal", "elliptic") for cd in (1, 3, 4, 6)
+              for jac, eq in (("dense", '<joint joint1="h2" polycoef="0.1 0 0 0 0"/>'), ("sparse", '<joint joint1="h2" joint2="s" polycoef="0.05 0.5 0 0 0"/>'))]
+    if quick:
+        combos = [c for c in combos if c[2] == "dense" or c[1] == 1]
+    for cone, cd, jac, eq in combos:
+        name = "rt_%s_condim%d_%s" % (cone, cd, jac)
+        m = mujoco.MjModel.from_xml_string(RT_XML.format(cone=cone, condim=cd, jac=jac, eq=eq))
+        d = mujoco.MjData(m)
+        d.qpos[14] = 0.2                      # hinge beyond its upper limit
+        d.qvel[:] = 0.05 * np.arange(1, m.nv + 1)
+        mujoco.mj_forward(m, d)
+        try:
+            dx = mjx.put_data(m, d)
+            d2 = mjx.get_data(m, dx)
+        except NotImplementedError as e:
+            out["notes"].append("%s: NotImplementedError %s" % (name, str(e)[:80]))
+            continue
+        bad = []
+        for k in ("ncon", "ne", "nf", "nl", "nefc"):
+            if getattr(d, k) != getattr(d2, k):
+                bad.append("%s %d->%d" % (k, getattr(d, k), getattr(d2, k)))
+        if not bad:
+            if not np.allclose(dense_J(m, d), dense_J(m, d2), rtol=0, atol=1e-12):
+                bad.append("efc_J")
+            for f in RT_EFC:
+                a, b = np.array(getattr(d, f)), np.array(getattr(d2, f))
+                if a.shape != b.shape or not np.allclose(a, b, rtol=0, atol=1e-12):
+                    bad.append(f)
+            for f in RT_CON:
+                a, b = np.array(getattr(d.contact, f)), np.array(getattr(d2.contact, f))
+                if a.shape != b.shape or not np.allclose(a, b, rtol=0, atol=1e-12):
+                    bad.append("contact." + f)
+        active = "ncon=%d ne=%d nf=%d nl=%d nefc=%d" % (d.ncon, d.ne, d.nf, d.nl, d.nefc)
+        out["checks"].append({"kind": "put_get_roundtrip", "model": name, "what": "active constraints: " + active, "diff": 0.0 if not bad else float("inf"),
+                              "where": ",".join(bad[:8]), "tol": 0.0, "ok": not bad, "mjcf": RT_XML.format(cone=cone, condim=cd, jac=jac, eq=eq),
+                              "state": {"qpos": d.qpos.tolist(), "qvel": d.qvel.tolist()}, "nontrivial": bool(d.ncon >= 3 and d.nl >= 1 and d.nf >= 1 and d.ne >= 1)})
+
+
+def roundtrip_observations(out):
+    """baseline behaviour recorded, not judged: get_data rebuilds the active sets from heuristics (rows with an all-zero Jacobian are
+    taken for padding; contacts with dist > 0 are taken for inactive even inside the margin)"""
+    try:
+        m = mujoco.MjModel.from_xml_string(RT_XML.format(cone="pyramidal", condim=3, jac="dense", eq='<weld body1="anchor" relpose="0 0 0.1 1 0 0 0"/>'))
+        d = mujoco.MjData(m); d.qpos[14] = 0.2
+        mujoco.mj_forward(m, d)
+        d2 = mjx.get_data(m, mjx.put_data(m, d))
+        out["notes"].append("OBSERVATION weld of a body with one slide dof (5 of its 6 rows have a zero Jacobian): MjData ne=%d nefc=%d -> get_data(put_data) ne=%d nefc=%d"
+                            % (d.ne, d.nefc, d2.ne, d2.nefc))
+        xml = RT_XML.format(cone="pyramidal", condim=3, jac="dense", eq="").replace('<geom name="floor"', '<geom name="floor" margin="0.05"')
+        m = mujoco.MjModel.from_xml_string(xml)
+        d = mujoco.MjData(m); d.qpos[2] = 0.12; d.qpos[9] = 0.07
+        mujoco.mj_forward(m, d)
+        d2 = mjx.get_data(m, mjx.put_data(m, d))
+        out["notes"].append("OBSERVATION contacts inside the margin with dist > 0: MjData ncon=%d nefc=%d (dist %s) -> get_data(put_data) ncon=%d nefc=%d"
+                            % (d.ncon, d.nefc, np.round(np.array(d.contact.dist), 3).tolist(), d2.ncon, d2.nefc))
+    except Exception as e:
+        out["notes"].append("observation run failed: %s" % str(e)[:120])
+
+
 def mode_oracle(req):
     rng = np.random.default_rng(req["seed"])
     out = {"wheel_version": mujoco.__version__, "checks": [], "notes": []}
+    roundtrip_corpus(out, req.get("quick", False))
+    roundtrip_observations(out)
 
     def rec(kind, model, what, diff, where, tol, extra=None):
         ok = diff is not None and diff <= tol
